@@ -127,7 +127,12 @@ def xlsx_sheet_xml(rng, sh, sst, choice):
     out.append('<sheetViews><sheetView workbookViewId="0"/></sheetViews><sheetFormatPr defaultRowHeight="15"/>')
     out.append("<sheetData>")
     prev_r = -1
-    for r in sorted(rows):
+    row_order = sorted(rows)
+    if choice.get("shuffle_rows") and not choice["implicit"]:
+        # rows with explicit references, not in ascending order (the readers place every cell by
+        # its reference, so the order of the row elements does not matter)
+        rng.shuffle(row_order)
+    for r in row_order:
         implicit_row = choice["implicit"] and r == prev_r + 1
         out.append("<row>" if implicit_row else '<row r="%d">' % (r + 1))
         prev_c = -1
@@ -170,6 +175,7 @@ def xlsx_sheet_xml(rng, sh, sst, choice):
 def xlsx_bytes(rng, wb):
     choice = {"dimension": rng.choice(["exact", "none", "small", "large", "a1", "exact"]),
               "implicit": rng.random() < 0.3, "inline": rng.random() < 0.3}
+    choice["shuffle_rows"] = rng.random() < 0.2
     sst = {}
     parts = []
     ct = [DECL, '<Types xmlns="http://schemas.openxmlformats.org/package/2006/content-types">',
@@ -337,7 +343,13 @@ def xlsb_bytes(rng, wb):
         items = []
         cells = sh["cells"]
         prev = None
-        for (r, c), v in sorted(cells.items()):
+        order = sorted(cells.items())
+        if rng.random() < 0.2:
+            # BrtRowHdr groups not in ascending row order (cells of a row stay together, in order)
+            rws = sorted(set(p[0] for p in cells)); rng.shuffle(rws)
+            rank = {r: i for i, r in enumerate(rws)}
+            order = sorted(cells.items(), key=lambda kv: (rank[kv[0][0]], kv[0][1]))
+        for (r, c), v in order:
             if r != prev:
                 it = {"k": "row", "row": r, "tail": b"\0" * 13}
                 it["fr"] = fr(0, xlsbgen.item_body(it))
